@@ -1,6 +1,9 @@
 package profile
 
-import "fmt"
+import (
+	"fmt"
+	"sync/atomic"
+)
 
 type VarGenerator struct {
 	vars    []string
@@ -15,15 +18,15 @@ func NewVarGenerator() VarGenerator {
 	}
 }
 
-var globalGenerator = NewVarGenerator()
+// genvarCounter is shared by every compilation in the process, including concurrent ones
+var genvarCounter atomic.Int64
 
 func Genvar(hint string) string {
-	globalGenerator.counter++
-	return fmt.Sprintf("gen_%s_%d", hint, globalGenerator.counter)
+	return fmt.Sprintf("gen_%s_%d", hint, genvarCounter.Add(1))
 }
 
 func GenReset() {
-	globalGenerator.counter = 0
+	genvarCounter.Store(0)
 }
 
 func (g *VarGenerator) GenExpressionVar(quantification Quantification, cardinality *VariableCardinality) Variable {
